@@ -34,6 +34,11 @@ func (b *byzActor) schedule() {
 	if b.kind == "silent" {
 		return
 	}
+	if b.kind == "starve" {
+		b.cl.initStarve(b)
+		b.cl.push(&event{at: 5 * time.Millisecond, kind: evByz, fn: b.starveAct})
+		return
+	}
 	if b.kind == "hostile" {
 		b.cl.push(&event{at: time.Duration(20+b.cl.sched.Int(50)) * time.Millisecond, kind: evByz, fn: b.hostileAct})
 		return
